@@ -748,7 +748,7 @@ static void vsleep_ms(unsigned ms) { usleep(ms ? ms * 1000u : 0); }
 /* peers: minimal RFB 3.8 clients (raw + copyrect + rich cursor + newfbsize)                   */
 enum { K_STAY, K_LEAVE, K_ABRUPT, K_SLOW, K_ABANDON, K_STALL };
 struct peer {
-  int idx, kind, p1, p2, soft, nonewfb, nonshared;
+  int idx, kind, p1, p2, soft, nonewfb, nonshared, extclip, extreq, second;
   int fd, connected, eof, handshook;
   int w, h; uint32_t *fb;
   int updates, bells, cuts, converged, finished, used;
@@ -760,11 +760,13 @@ struct peer {
 #define MAXPEER 64
 static peer peers[MAXPEER];
 static int listen_mode, listen_fd = -1;
-static char listen_name[64];
+static char listen_name[64], listen_name2[64];
+static int listen2_fd = -1;
 static volatile int final_phase, server_down;
 static int fbw, fbh; static uint32_t *server_fb;
 static int connect_counter, accept_counter;
 static int sharing;
+static void on_cut_utf8(char *str, int len, rfbClientPtr cl) { (void)str; (void)len; (void)cl; }
 static int guards;   /* 1 handshake-quiet before bell/cut, 2 wait for stray client threads before cleanup, 4 copy only while output threads idle */
 static peer *pending_accept[MAXCL]; /* connect_seq -> peer */
 
@@ -859,6 +861,19 @@ static int p_message(peer *p) {
     uint32_t len; char *tmp; int ok;
     if (!p_read(p, h, 7)) return 0;
     len = get32(h + 3);
+    if (p->extclip && (len & 0x80000000u)) {
+      /* extended clipboard message: Caps / Notify / Provide */
+      len = (uint32_t)(-(int32_t)len);
+      if (len >= 4 && len <= (1u << 22)) {
+        tmp = malloc(len + 1); ok = p_read(p, tmp, len);
+        if (ok && p->extreq && (((unsigned char)tmp[0]) & 0x08)) {   /* Notify: ask for the text */
+          unsigned char m[12]; m[0] = 6; m[1] = m[2] = m[3] = 0; put32(m + 4, (uint32_t)-4); put32(m + 8, 0x02000001u);
+          ok = p_write(p, m, 12);
+        }
+        free(tmp); if (!ok) return 0;
+        p->cuts++; return 1;
+      }
+    }
     if (len > (1u << 24)) { dump_trace(); printf("res proto peer %d cut text length %u\n", p->idx, len); return 0; }
     tmp = malloc(len + 1); ok = p_read(p, tmp, len); free(tmp);
     if (!ok) return 0;
@@ -879,14 +894,17 @@ static void *peer_main(void *arg) {
   if (listen_mode) {
     struct sockaddr_un sa; int fd = socket(AF_UNIX, SOCK_STREAM, 0);
     memset(&sa, 0, sizeof sa); sa.sun_family = AF_UNIX;
-    memcpy(sa.sun_path, listen_name, sizeof listen_name);
+    { const char *nm = (p->second && listen2_fd >= 0) ? listen_name2 : listen_name;
+    memcpy(sa.sun_path, nm, sizeof listen_name);
     p->connect_seq = connect_counter; pending_accept[connect_counter++] = p;
-    if (connect(fd, (struct sockaddr *)&sa, sizeof(sa.sun_family) + 1 + strlen(listen_name + 1)) < 0) {
+    if (connect(fd, (struct sockaddr *)&sa, sizeof(sa.sun_family) + 1 + strlen(nm + 1)) >= 0) goto connected; }
+    {
       r_close(fd); p->finished = 1; p->eof = 1; pending_accept[p->connect_seq] = NULL;
       /* refused: the listening socket is already gone (connect raced with shutdown) */
       connect_counter--;   /* nothing queued */
       return NULL;
     }
+  connected:
     fcntl(fd, F_SETFL, fcntl(fd, F_GETFL) | O_NONBLOCK);
     p->fd = fd;
   }
@@ -913,11 +931,19 @@ static void *peer_main(void *arg) {
   stage = 3;
   if (p->kind == K_ABANDON) goto abandon;
   /* SetEncodings */
-  { int32_t encs[5]; int n = 0, i;
+  { int32_t encs[8]; int n = 0, i;
     encs[n++] = 1; encs[n++] = 0; if (!p->soft) encs[n++] = -239; if (!p->nonewfb) encs[n++] = -223;
+    if (p->extclip) encs[n++] = (int32_t)0xC0A1E5CE;
     b[0] = 2; b[1] = 0; put16(b + 2, n);
     for (i = 0; i < n; i++) put32(b + 4 + 4 * i, (uint32_t)encs[i]);
     if (!p_write(p, b, 4 + 4 * (size_t)n)) goto out; }
+  if (p->extclip) {
+    /* ExtendedClipboard Caps: text only, every action, maximum unsolicited size 0: the server has to
+       announce (Notify) a new clipboard text instead of sending it */
+    unsigned char m[16]; m[0] = 6; m[1] = m[2] = m[3] = 0; put32(m + 4, (uint32_t)-8);
+    put32(m + 8, 0x1F000001u); put32(m + 12, 0);
+    if (!p_write(p, m, 16)) goto out;
+  }
   if (!p_send_fur(p, 0)) goto out;
   if (p->kind == K_STALL) {
     /* a reader that stops reading: the server's writer runs into its time-out (or not, when the
@@ -1120,6 +1146,7 @@ int main(void) {
       if (sharing & 1) scr->dontDisconnect = TRUE;
       if (sharing & 2) scr->neverShared = TRUE;
       if (sharing & 4) scr->alwaysShared = TRUE;
+      if (sharing & 8) scr->setXCutTextUTF8 = on_cut_utf8;
       /* identify the static client-list mutex behaviourally: it is the mutex locked by an iterator
          step on the empty list */
       { rfbClientIteratorPtr it = rfbGetClientIterator(scr); size_t before = nev, i;
@@ -1137,6 +1164,16 @@ int main(void) {
         fcntl(fd, F_SETFL, fcntl(fd, F_GETFL) | O_NONBLOCK);
         listen_fd = fd;
         scr->listenSock = fd; FD_SET(fd, &scr->allFds); if (fd > scr->maxFd) scr->maxFd = fd;
+        if (listen_mode == 2) {
+          /* a second listening socket in the place of the IPv6 one (listenerRun only select()s and accept()s on it) */
+          struct sockaddr_un sb; int fd2 = socket(AF_UNIX, SOCK_STREAM, 0);
+          memset(&sb, 0, sizeof sb); sb.sun_family = AF_UNIX;
+          snprintf(listen_name2 + 1, sizeof listen_name2 - 1, "verif-c13b-%d-%llu", (int)getpid(), (unsigned long long)seed);
+          memcpy(sb.sun_path, listen_name2, sizeof listen_name2);
+          if (bind(fd2, (struct sockaddr *)&sb, sizeof(sb.sun_family) + 1 + strlen(listen_name2 + 1)) < 0 || listen(fd2, 64) < 0) die("listen2");
+          fcntl(fd2, F_SETFL, fcntl(fd2, F_GETFL) | O_NONBLOCK);
+          listen2_fd = fd2; scr->listen6Sock = fd2; FD_SET(fd2, &scr->allFds); if (fd2 > scr->maxFd) scr->maxFd = fd2;
+        }
       }
       ev(E_CALL, NULL, 0, "runloop");
       rfbRunEventLoop(scr, 40000, TRUE);
@@ -1149,7 +1186,7 @@ int main(void) {
       peer *p; k = atoi(tok[1]); if (k < 0 || k >= MAXPEER) die("peer index");
       p = &peers[k]; memset(p, 0, sizeof *p); p->idx = k; p->used = 1; p->cid = -1; p->fd = -1;
       p->kind = !strcmp(tok[2], "stay") ? K_STAY : !strcmp(tok[2], "leave") ? K_LEAVE : !strcmp(tok[2], "abrupt") ? K_ABRUPT : !strcmp(tok[2], "slow") ? K_SLOW : !strcmp(tok[2], "stall") ? K_STALL : K_ABANDON;
-      p->p1 = atoi(tok[3]); p->p2 = atoi(tok[4]); p->soft = atoi(tok[5]) & 1; p->nonewfb = (atoi(tok[5]) >> 1) & 1; p->nonshared = (atoi(tok[5]) >> 2) & 1;
+      p->p1 = atoi(tok[3]); p->p2 = atoi(tok[4]); p->soft = atoi(tok[5]) & 1; p->nonewfb = (atoi(tok[5]) >> 1) & 1; p->nonshared = (atoi(tok[5]) >> 2) & 1; p->extclip = (atoi(tok[5]) >> 3) & 1; p->extreq = (atoi(tok[5]) >> 4) & 1; p->second = (atoi(tok[5]) >> 5) & 1;
       if (p->kind == K_SLOW && p->p2 < 1) p->p2 = 1;
     } else if (!strcmp(tok[0], "connect") && n == 2) {
       k = atoi(tok[1]); if (k < 0 || k >= MAXPEER || !peers[k].used) die("connect: no such peer");
@@ -1282,6 +1319,7 @@ int main(void) {
         all = 1;
         for (k = 0; k < MAXPEER; k++) {
           peer *p = &peers[k];
+          if (p->used && p->started && p->connected && !p->finished && !p->handshook && p->kind != K_ABANDON) { all = 0; continue; }   /* still waiting to be served */
           if (!p->used || !p->started || p->finished || p->kind == K_ABANDON || !p->handshook) continue;
           if (p->kind == K_ABRUPT || p->kind == K_LEAVE || p->kind == K_STALL) continue;   /* will leave on their own / may have been dropped by the server */
           if (p->soft) continue;                                      /* picture contains the drawn cursor by design */
@@ -1292,6 +1330,9 @@ int main(void) {
         /* a fresh look: memory may have changed only through the server */
         for (k = 0; k < MAXPEER; k++) if (peers[k].used && peers[k].started && !peers[k].finished && peers[k].fb) p_check_converged(&peers[k]);
       }
+      for (k = 0; k < MAXPEER; k++) if (peers[k].used && peers[k].started && peers[k].connected && !peers[k].finished &&
+          !peers[k].handshook && peers[k].kind != K_ABANDON)
+        printf("res unserved peer=%d connected but never greeted by the server (waited_ms=%d)\n", k, waited);
       for (k = 0; k < MAXPEER; k++) {
         peer *p = &peers[k];
         if (!p->used || !p->started || !p->handshook) continue;
